@@ -880,11 +880,11 @@ def clock_oracle(obs):
     return None
 
 
-def gen_hookraise(rng, n):
+def gen_hookraise(rng, n, nest_depths=(0, 1, 2)):
     """Programs in which one doer's clean/cease/abort/exit context raises (outside the Coq model: oracle only)."""
     out = []
     for _ in range(n):
-        p = gen_static(rng, n_leaves=rng.randint(2, 5), nest_depth=rng.choice([0, 1, 2]), faults=False, tocks="dyadic", limit_p=0.0)
+        p = gen_static(rng, n_leaves=rng.randint(2, 5), nest_depth=rng.choice(list(nest_depths)), faults=False, tocks="dyadic", limit_p=0.0)
         leaves = leaf_ids(p)
         which = rng.choice(["clean", "cease", "abort", "exit", "exit", "cease"])
         i = rng.choice(leaves)
